@@ -104,7 +104,14 @@ func TestPropE2EH2Trailers(t *testing.T) {
 			}
 		}))
 		defer up.Close()
-		cs, err := mesh.NewCaseBound(mesh.Opts{Down: "Http2", Up: "Http2", Hosts: []string{up.Addr}})
+		// half of the cases run the proxy in HTTP/2 streaming mode (http2_use_stream): the trailer block then reaches the
+		// stream layer after headers and body have already been passed on
+		useStream := rapid.Bool().Draw(rt, "http2UseStream")
+		o := mesh.Opts{Down: "Http2", Up: "Http2", Hosts: []string{up.Addr}}
+		if useStream {
+			o.ProxyExtend = map[string]interface{}{"Http2": map[string]interface{}{"http2_use_stream": true}}
+		}
+		cs, err := mesh.NewCaseBound(o)
 		if err != nil {
 			rt.Skip("rig: " + err.Error())
 		}
@@ -125,6 +132,9 @@ func TestPropE2EH2Trailers(t *testing.T) {
 			}
 		}
 		classes := []string{fmt.Sprintf("exchanges:%d", n)}
+		if useStream {
+			classes = append(classes, "http2_use_stream")
+		}
 		if repeated {
 			classes = append(classes, "repeated-trailer-name")
 		}
